@@ -94,6 +94,27 @@ def gen_C16(g, tier):
     return cs
 
 
+GROUP_DBL = dict(name='dbl', sources=['h_dbl.cpp'], repo_sources=[], driver=None, replay_prefix=('o.c16.dalias',))
+
+
+def gen_dbl_c16(g, tier):
+    """double-precision aliasing with components of every magnitude (harness group dbl)"""
+    from .core import dhex
+    cs = []
+    reps = 2 if tier == 'quick' else 40
+    mags = [3e-310, -1e-310, 5e-324, 2.5e-308, 1e-300, -3e-200, 0.75, -2.5, 3.0, 1e200, -4e299, 1e-5, 7e12]
+    for _ in range(reps):
+        for type_, n in (('vec3', 3), ('stokes', 4), ('mat22', 4), ('quatH', 4), ('quatU', 4), ('jones', 8)):
+            for op in ('mul', 'div'):
+                for k in range(n):
+                    cls = g.choice(['subnormal', 'mixed', 'ordinary'])
+                    if cls == 'subnormal': vals = [g.choice([3e-310, -1e-310, 2e-310, 5e-310, 7e-311]) * g.choice([1, 2, 3]) for _ in range(n)]
+                    elif cls == 'mixed': vals = [g.choice(mags) for _ in range(n)]
+                    else: vals = [g.r.uniform(-3, 3) or 1.0 for _ in range(n)]
+                    if vals[k] == 0: vals[k] = 1.5
+                    cs.append(Case('o.c16.dalias %s %s %d %s' % (type_, op, k, ' '.join(dhex(x) for x in vals)), 'orc', 'double-alias-' + cls))
+    return cs
+
 C16 = dict(
     id='C16', module='EpsicProofs.Props.C16', gen=gen_C16, replay_check=halves_equal,
     rule='the finite table of (type, compound operator, alias shape) is enumerated completely: Vector N=1..6, Matrix shapes '
